@@ -90,7 +90,13 @@ class JaqalLexer(Lexer):
         return token
 
     def NUMBER(self, token):
-        token.value = float(token.value)
+        text = token.value
+        token.value = float(text)
+        if token.value in (float("inf"), float("-inf")):
+            col = token.index - self.text.rfind("\n", 0, token.index)
+            raise JaqalParseError(
+                "<string>", self.lineno, col, f"Number {text} is out of range"
+            )
         return token
 
     def BININT(self, token):
